@@ -117,7 +117,10 @@ package hcl
 // (unit U15, C06) indexing: a result returned without diagnostics carries every mark of the collection
 // verif:func Index
 //@ nosafety
-//@ ensures marks: len(ret1) == 0 ==> (forall k iface :: { marked(ret0, k) } marked(collection, k) ==> marked(ret0, k))
+//@ ensures marks: len(ret1) == 0 ==> (forall k iface :: { marked(ret0, k) } marked(old(collection), k) ==> marked(ret0, k))
+// ... and, when collection and key are both known (so that the key decides which element comes back),
+// every mark of the key.
+//@ ensures keymarks: len(ret1) == 0 && isKnownVal(old(collection)) && isKnownVal(old(key)) ==> (forall k iface :: { marked(ret0, k) } marked(old(key), k) ==> marked(ret0, k))
 //@ props C06,C19
 
 // ---- diagnostics ----
